@@ -99,6 +99,9 @@ type Segment struct {
 type FileLayout struct {
 	Segments []Segment
 	TopSidx  bool // one sidx after moov with one reference per segment
+	// TopSidxGap > 0: a free box of that many bytes (>= 8) follows the top-level sidx, and the sidx says so in
+	// first_offset (the indexed material starts behind the free box)
+	TopSidxGap int `json:",omitempty"`
 	Mfra     bool // mfra (tfra per track + mfro) at the end
 	// MfraFirstTrackOnly restricts the mfra to one tfra for tracks[0].
 	MfraFirstTrackOnly bool
